@@ -292,11 +292,14 @@ def assemble_unit(unit_name, unit_dir, cfg, extracted, prelude_files, canary=Fal
             done_fns.add(fname)
             fsec = find("fn", fname)
             head = joined[: m.start()]
-            k = head.rfind("vx_ret!(")
+            k = -1
+            mlen = 0
+            for rm in re.finditer(r'vx_ret\s*!\s*\(', head):
+                k, mlen = rm.start(), rm.end() - rm.start()
             # only if this vx_ret belongs to this fn (no other vx_fn_head between)
             if k >= 0 and "vx_fn_head!" not in head[k:]:
-                end = _find_balanced(joined, k + len("vx_ret!"))
-                ty = joined[k + len("vx_ret!(") : end - 1]
+                end = _find_balanced(joined, k + mlen - 1)
+                ty = joined[k + mlen : end - 1]
                 retname = None
                 if fsec is not None and len(fsec.args) >= 3 and fsec.args[1] == "ret":
                     retname = fsec.args[2]
